@@ -102,7 +102,9 @@ for n in ast.walk(find_func(btree, "bundle")):
 
 def _refused_by_decorator(name):
     try:
-        hdl21.bundle(type("ProbeBundle", (), {name: hdl21.Signal()}))
+        # a NON-HDL value: the decorator's own list is what it refuses whatever the value is (an HDL value under a
+        # reserved name is refused later, by Bundle.__setattr__, which the model has separately)
+        hdl21.bundle(type("ProbeBundle", (), {name: 5}))
         return False
     except Exception:
         return True
